@@ -18,6 +18,8 @@ SCENARIO = {
     '/ret503long': ('GET', 'base', True), '/nb': ('GET', 'raise', True), '/boom': ('GET', 'raise', True),
     '/nowhere': ('GET', 'base', True), '/postonly': ('GET', 'base', True), '/js': ('GET', 'full', True),
     '/stream': ('GET', 'full', True), '/pre': ('GET', 'full', True),
+    # endpoints that already vary on something else (content negotiation, personalised pages)
+    '/vary_accept': ('GET', 'full', True), '/vary_cookie': ('GET', 'full', True),
 }
 
 
@@ -78,13 +80,22 @@ def build_app(mws):
     def sized(n, kind):
         return Response(body_for(kind, n), mimetype='text/plain' if kind == 'text' else 'application/octet-stream')
 
+    def vary_accept():
+        return Response(body_for('text', 3000), mimetype='text/plain', headers={'Vary': 'Accept'})
+
+    def vary_cookie():
+        r = Response(body_for('text', 2500), mimetype='text/plain')
+        r.vary.add('Cookie')
+        r.vary.add('Accept-Language')
+        return r
+
     inst = {'gzip': lambda: M.GzipMiddleware(), 'cache': lambda: M.HTTPCacheMiddleware(), 'stats': lambda: StatsMiddleware(),
             'profile': lambda: M.SimpleProfileMiddleware(), 'cookie': lambda: SignedCookieMiddleware(secret_key=b'k' * 20),
             'ctxproc': lambda: M.ContextProcessor(), 'getparam': lambda: M.GetParamMiddleware(['q']),
             'postdata': lambda: __import__('clastic.middleware.form', fromlist=['x']).PostDataMiddleware(['p']), 'scriptroot': lambda: __import__('clastic.middleware.url', fromlist=['x']).ScriptRootMiddleware()}
     routes = [('/ok', ok), ('/bin', binr), ('/empty', empty), ('/ctx', ctx, render_basic), ('/redir', redir),
               ('/raise404', raise404), ('/ret403', ret403), ('/ret503long', ret503long), ('/nb', nb), ('/boom', boom), ('/js', js),
-              ('/stream', stream), ('/pre', pre), POST('/postonly', ok), ('/size/<n:int>/<kind>', sized)]
+              ('/stream', stream), ('/pre', pre), ('/vary_accept', vary_accept), ('/vary_cookie', vary_cookie), POST('/postonly', ok), ('/size/<n:int>/<kind>', sized)]
     return Application(routes, middlewares=[inst[m]() for m in mws])
 
 
@@ -114,9 +125,17 @@ def impl(case):
     base = build_app([])
     app = build_app(case['mws'])
     out = []
+    stats_mws = [m for m in app.middlewares if type(m).__name__ == 'StatsMiddleware']
     for rq in case['requests']:
         a = send(base, rq)
         b2 = send(app, rq)
+        if case.get('small_stores'):
+            # the operator keeps the per-route sample stores small: later hits of the same route and status take the
+            # store's replacement branch (as after 16384 hits with the default capacity)
+            for m in stats_mws:
+                for hits in m.route_hits.values():
+                    for res in hits.values():
+                        res.resize(1)
         # the inner body as the baseline sends it (for the gzip model: its length and compressed length)
         r = wsgi.call(base, wsgi.environ(rq['path'], method='GET' if rq['method'] == 'HEAD' else rq['method'], query=rq.get('query', '')))
         out.append({'base': a, 'with': b2, 'inner_len': len(r.body), 'inner_complen': len(gzip_bytes(r.body, 6))})
@@ -193,6 +212,9 @@ def gen_case(rng, tier):
             method = 'GET'
         reqs.append({'path': path, 'method': method, 'ae': rng.choice(ACCEPT_ENCODINGS), 'ua': rng.choice(AGENTS),
                      'query': rng.choice(['', 'q=1', 'x=y&q=z'])})
+    if 'stats' in mws:
+        reqs = reqs + [dict(r) for r in reqs[:6]] + [dict(r) for r in reqs[:6]]      # the same route and status again and again
+        return {'mws': mws, 'requests': reqs, 'small_stores': rng.random() < 0.7}
     return {'mws': mws, 'requests': reqs}
 
 
